@@ -9,11 +9,14 @@ UNIT = {
  'slices': [
   s('atimes', 'colvargrid.cpp', r'void integrate_potential::atimes\(const std::vector<cvm::real> &A, std::vector<cvm::real> &LA\)', R5=[r'LA\[index\]', r'LA\[index2\]', 'fact']),
  ],
- 'assumed': ['symbolic reals; grids of 2 or 3 points per dimension (every point of the 3x3 and 2x2x3 grids is checked through a ghost point index); the symmetrising edge factor `fact` is left unconstrained (any sub-expression)',
+ 'assumed': ['symbolic reals; grids of 2 or 3 points per dimension (every point of the 3x3 and 2x2x3 grids is checked through a ghost point index); the symmetrising edge factor `fact` is pinned in two dimensions (1/2 exactly on a non-periodic edge of the other direction) and left unconstrained (any sub-expression) in three',
              'the conjugate-gradient solver that calls atimes (nr_linbcg_sym) is not under contract'],
  'tasks': [
   t('atimes_2d_open', 'h_atimes_2d_open', '3x3 grid, non-periodic'),
   t('atimes_2d_periodic', 'h_atimes_2d_periodic', '3x3 grid, periodic in both dimensions'),
+  t('atimes_2d_px', 'h_atimes_2d_px', '3x3 grid, periodic in the first dimension only',
+    mutants=[('fact = periodic[1] ? 1.0 : 0.5;\n      LA[index]  = fact * ffx * (A[index + xm] + A[index + xp] - 2.0 * A[index]);', 'fact = periodic[0] ? 1.0 : 0.5;\n      LA[index]  = fact * ffx * (A[index + xm] + A[index + xp] - 2.0 * A[index]);'), ('if (i == 1) fact = 1.0;', 'if (i == 2) fact = 1.0;')]),
+  t('atimes_2d_py', 'h_atimes_2d_py', '3x3 grid, periodic in the second dimension only'),
   t('atimes_3d_open', 'h_atimes_3d_open', '2x2x3 grid, non-periodic', mutants=M3),
   t('atimes_3d_periodic', 'h_atimes_3d_periodic', '2x2x3 grid, periodic in all dimensions', thorough_only=True),
  ],
